@@ -246,7 +246,11 @@ func child(fam, opn string, capBytes int, out string) {
 		}
 		n *= 2
 	}
-	for _, k := range []int{n, 2 * n, 4 * n} {
+	ladder := []int{n, 2 * n, 4 * n}
+	if os.Getenv("VERIF_TIER") == "thorough" {
+		ladder = append(ladder, 8*n, 16*n) // towards the size limit: a super-linear term with a small constant shows later
+	}
+	for _, k := range ladder {
 		sql := f.build(k)
 		if len(sql) > capBytes {
 			m.Note = "ladder cut at the size cap"
@@ -369,6 +373,16 @@ func main() {
 		if len(p) < 3 {
 			table = append(table, fmt.Sprintf("%s/%s: %d sizes measured (%s)", j.fam, j.op, len(p), j.m.Note))
 			continue
+		}
+		// with more than three sizes every window of three consecutive sizes is judged: the worst one is kept
+		if len(p) > 3 {
+			best, bestTr := 0, 0.0
+			for w := 0; w+2 < len(p); w++ {
+				if t := p[w+2].CPUms / maxf(p[w].CPUms, 0.001); p[w].CPUms >= 15 && t > bestTr {
+					best, bestTr = w, t
+				}
+			}
+			p = p[best : best+3]
 		}
 		tr := p[2].CPUms / maxf(p[0].CPUms, 0.001)
 		ar := float64(p[2].AllocB) / maxf(float64(p[0].AllocB), 1)
